@@ -24,6 +24,10 @@ pub enum Op {
 
 #[derive(Clone, Debug, Serialize, Deserialize)]
 pub struct Case {
+    /// a run of identical operations executed first, compared with the model by result at every
+    /// step and by full snapshot only at its end (tens of thousands of steps stay affordable)
+    #[serde(default)]
+    pub prefix: Option<(Op, usize)>,
     pub ops: Vec<Op>,
 }
 
@@ -448,6 +452,19 @@ impl Check for C12 {
                 let _ = model.apply(&Op::Push(chunk.clone()));
             }
         }
+        // very rare: a run long enough to overflow 16-bit (thorough: 20-bit) counters
+        let mut prefix = None;
+        if ops.is_empty() && rng.chance(1, 50_000) {
+            let op = match rng.below(3) {
+                0 | 1 => Op::Put("0".into()),
+                _ => Op::Push("7".into()),
+            };
+            let k = if crate::rng::thorough_tier() && rng.chance(1, 4) { 1_100_000 } else { 70_000 };
+            for _ in 0..k {
+                let _ = model.apply(&op);
+            }
+            prefix = Some((op, k));
+        }
         let n = n + ops.len();
         while ops.len() < n {
             let want_refusal = rng.chance(refusal_pct, 100);
@@ -477,7 +494,7 @@ impl Check for C12 {
             let _ = model.apply(&op);
             ops.push(op);
         }
-        Case { ops }
+        Case { prefix, ops }
     }
 
     fn execute(&self, case: &Case, stats: &mut Stats) -> RunResult {
@@ -496,6 +513,32 @@ impl Check for C12 {
             }
         };
         let mut ds = DigitString::new();
+        if let Some((op, k)) = &case.prefix {
+            for step in 0..*k {
+                let m = model.apply(op);
+                let r = match guarded(|| apply_real(&mut ds, op)) {
+                    Ok(r) => r,
+                    Err(p) => return viol("I7-no-panic", step + 1, format!("repetition {} of {op:?} panicked: {p}", step + 1)),
+                };
+                if r != m {
+                    return viol("I3-model", step + 1, format!("repetition {} of {op:?}: real {:?}, model {:?}", step + 1, r.is_ok(), m.is_ok()));
+                }
+            }
+            // full comparison at the end of the run (frozenness probe replays a short equivalent)
+            let after = match guarded(|| snapshot_real(&ds, &[])) {
+                Ok(s) => s,
+                Err(p) => return viol("I7-no-panic", *k, format!("query after {k} x {op:?} panicked: {p}")),
+            };
+            let ms = model.snapshot();
+            if after.rendering.len() != ms.rendering.len() || after.len != ms.len || after.rendering != ms.rendering || after.is_null != ms.is_null {
+                return viol(
+                    "I3-model",
+                    *k,
+                    format!("after {k} x {op:?}: rendering length {} (len() {}) vs model {} (kept leading zeros / digits lost?)", after.rendering.len(), after.len, ms.rendering.len()),
+                );
+            }
+            stats.hit("probe.long_run_prefix");
+        }
         // queries on the initial (empty) builder are part of the history
         let mut before = match guarded(|| snapshot_real(&ds, &[])) {
             Ok(s) => s,
@@ -613,15 +656,27 @@ impl Check for C12 {
     fn shrink(&self, case: &Case) -> Vec<Case> {
         let mut out = vec![];
         let n = case.ops.len();
+        if let Some((op, k)) = &case.prefix {
+            out.push(Case { prefix: None, ops: case.ops.clone() });
+            if !case.ops.is_empty() {
+                out.push(Case { prefix: case.prefix.clone(), ops: vec![] });
+            }
+            // bisect the length of the run
+            for k2 in [k / 2, k - k / 4, k - k / 16, k - k / 256, k.saturating_sub(1)] {
+                if k2 > 0 && k2 < *k {
+                    out.push(Case { prefix: Some((op.clone(), k2)), ops: case.ops.clone() });
+                }
+            }
+        }
         // drop halves, then single operations
         if n > 2 {
-            out.push(Case { ops: case.ops[n / 2..].to_vec() });
-            out.push(Case { ops: case.ops[..n / 2].to_vec() });
+            out.push(Case { prefix: case.prefix.clone(), ops: case.ops[n / 2..].to_vec() });
+            out.push(Case { prefix: case.prefix.clone(), ops: case.ops[..n / 2].to_vec() });
         }
         for i in 0..n {
             let mut ops = case.ops.clone();
             ops.remove(i);
-            out.push(Case { ops });
+            out.push(Case { prefix: case.prefix.clone(), ops });
         }
         // simplify arguments
         for i in 0..n {
@@ -638,7 +693,7 @@ impl Check for C12 {
             for s in simpler {
                 let mut ops = case.ops.clone();
                 ops[i] = s;
-                out.push(Case { ops });
+                out.push(Case { prefix: case.prefix.clone(), ops });
             }
         }
         out
